@@ -22,6 +22,7 @@ import M17.Model.Dcd
 import M17.Model.App
 import M17.Model.Demod
 import M17.Model.Ax25
+import M17.Model.AppPacket
 import M17.Model.TxMod
 import M17.Model.TxModulator
 import M17.Model.Clock
@@ -293,6 +294,16 @@ def handle (st : DrvState) (op : String) (a : List Int) : DrvState × String :=
     match Ax25.parse (bytes.map Int.toNat) with
     | some p => (st, show_ p.dest p.src p.reps p.ftype p.pid p.info)
     | none => (st, show_ [] [] [] 0 none [])
+  | "app_packets", v =>
+    -- model of m17-demod's dump_lsf (packet part) + decode_packet on 26-byte segments: flags, then the size of current_packet
+    let bs := v.map Int.toNat
+    let mode := bs.getD 0 0
+    let lsf := (List.replicate 13 0) ++ [if mode = 1 then 2 else 4] ++ List.replicate 16 0
+    let s0 : AppPacket.PState := if mode = 0 then ⟨[], 0⟩ else AppPacket.onLsf lsf
+    let body := bs.drop 1
+    let segs := (List.range (body.length / 26)).map fun k => (body.drop (26 * k)).take 26
+    let (s1, rs) := AppPacket.run s0 segs
+    (st, joinNats (rs.map (fun r => if r then 1 else 0) ++ [s1.buf.length]))
   | "app_bert", bytes =>
     -- model of m17-demod's decode_bert on consecutive 25-byte frames from a reset validator: sync, errors, bits
     let bs := bytes.map Int.toNat
